@@ -236,6 +236,8 @@ type c20world struct {
 	cancel context.CancelFunc
 
 	errOther error
+	// failClose: "client close" events end the connection with a transport error instead of EOF
+	failClose bool
 
 	mu         sync.Mutex
 	svcs       []*c20service
@@ -332,7 +334,13 @@ func (w *c20world) do(e c20ev) {
 		}
 		wc.cli.Inject([]byte(peer.Req(fmt.Sprint(wc.nextID), method, e.Tag)))
 	case 'c':
-		w.conns[e.K].cli.CloseQuiet()
+		if w.failClose {
+			// the connection does not end cleanly: the server's Recv reports an error that is
+			// neither EOF nor a closing error, so its status carries that error
+			w.conns[e.K].cli.InjectFail(errC20Reset)
+		} else {
+			w.conns[e.K].cli.CloseQuiet()
+		}
 	case 'r':
 		// the gate lives in the handlers of the service of the tag's connection
 		if hs := w.handlers(); e.K < len(hs) && hs[e.K] != nil {
@@ -521,6 +529,13 @@ func (w *c20world) check() {
 			case c20Either:
 				okStatus = f.st.Err == nil && f.st.Stopped != f.st.Closed
 			}
+			if w.failClose && mc.cause != c20Stopped && f.st.Err == errC20Reset && !f.st.Closed && !f.st.Stopped {
+				okStatus = true // the connection failed with the scripted error
+				c.Count("servers_ended_by_a_failing_connection", 1)
+			}
+			if closes != 1 {
+				c.Failf("%s: connection %d: its server has exited; Close was called %d times on its channel, want exactly 1", w.where(), k, closes)
+			}
 			if !okStatus {
 				c.Failf("%s: connection %d: Finish got status %s, but the server exited because: %s", w.where(), k, c20statusString(f.st), mc.cause)
 			}
@@ -573,7 +588,7 @@ func (w *c20world) check() {
 		}
 		if len(acceptErrs) == 1 {
 			aerr := acceptErrs[0]
-			if channel.IsErrClosing(aerr) {
+			if c20isClosing(aerr) {
 				if loopErr != nil {
 					c.Failf("%s: accepter failed with the closing error %q; Loop returned %q, want nil", w.where(), aerr, loopErr)
 				}
@@ -585,11 +600,11 @@ func (w *c20world) check() {
 			for _, kind := range m.accDead {
 				switch kind {
 				case 'A':
-					okKind = okKind || (channel.IsErrClosing(aerr) && strings.Contains(aerr.Error(), "scripted"))
+					okKind = okKind || (c20isClosing(aerr) && strings.Contains(aerr.Error(), "scripted"))
 				case 'E':
 					okKind = okKind || aerr == w.errOther
 				case 'X':
-					okKind = okKind || (w.v.CtxMode == c20CtxClosing && channel.IsErrClosing(aerr)) ||
+					okKind = okKind || (w.v.CtxMode == c20CtxClosing && c20isClosing(aerr)) ||
 						(w.v.CtxMode == c20CtxErr && errors.Is(aerr, context.Canceled))
 				}
 			}
@@ -702,6 +717,14 @@ func (w *c20world) raceFix(st c20step, fresh map[int]bool, accAlive bool) {
 	}
 }
 
+// c20isClosing is the documented meaning of "a closed-listener error", spelt out here
+// rather than borrowed from the library: the error is or wraps channel.ErrClosed or net.ErrClosed.
+func c20isClosing(err error) bool {
+	return err != nil && (errors.Is(err, channel.ErrClosed) || errors.Is(err, net.ErrClosed))
+}
+
+var errC20Reset = errors.New("c20 connection: reset by peer")
+
 // c20timeoutErr is an accept error of the kind a listener with a deadline reports.
 type c20timeoutErr struct{}
 
@@ -717,6 +740,8 @@ var c20acceptErrors = []error{
 	&net.OpError{Op: "accept", Net: "tcp", Err: c20timeoutErr{}},
 	context.DeadlineExceeded,
 	io.ErrUnexpectedEOF,
+	io.EOF, // "no more connections" of a one-shot or queue-fed accepter: not a closed-listener error
+	fmt.Errorf("c20 accepter: queue drained: %w", io.EOF),
 }
 
 // c20exec runs one script in a bubble.
@@ -731,7 +756,7 @@ func c20exec(c *vt.Ctx, v c20var, script c20script, ctrl *sched.Controller) {
 	peer.Bubble(c, ctrl, func() {
 		log := peer.NewLog()
 		w = &c20world{c: c, ctrl: ctrl, log: log, v: v, m: &c20model{v: v}, hrec: map[string]c20hrec{},
-			script: script, errOther: c20acceptErrors[int(vt.Hash64(script.String()+v.String())%uint64(len(c20acceptErrors)))]}
+			script: script, failClose: vt.Hash64("failclose/"+script.String()+v.String())%3 == 0, errOther: c20acceptErrors[int(vt.Hash64(script.String()+v.String())%uint64(len(c20acceptErrors)))]}
 		w.mon = &peer.Mon{C: c, Log: log}
 		w.acc = &c20accepter{w: w, wake: make(chan struct{})}
 		w.ctx, w.cancel = context.WithCancel(context.Background())
